@@ -163,10 +163,24 @@ func parseGuard(g string) (guardSpec, error) {
 func guardClauseResults(eng *vc.Engine, fname string) []StructResult {
 	spec := eng.Spec.Funcs[fname]
 	fn := eng.Func(fname)
-	if spec == nil || fn == nil || (len(spec.Guards) == 0 && len(spec.Orders) == 0 && len(spec.Reads) == 0) {
+	if spec == nil || fn == nil || (len(spec.Guards) == 0 && len(spec.Orders) == 0 && len(spec.Reads) == 0 && len(spec.ControlOnly) == 0) {
 		return nil
 	}
 	var out []StructResult
+	for _, tf := range spec.ControlOnly {
+		tn, field, ok := strings.Cut(tf, ".")
+		name := fmt.Sprintf("%s#control-only:%s", fname, tf)
+		if !ok {
+			out = append(out, StructResult{Name: name, Desc: "control_only needs Type.field", OK: false, Status: "unbound"})
+			continue
+		}
+		okAll, why, nLoads := controlOnly(fn, tn, field)
+		if nLoads == 0 {
+			out = append(out, StructResult{Name: name + ":site", Desc: "the field is read in the function", OK: false, Status: "unbound", Detail: "no load of the field found (code shape changed)"})
+			continue
+		}
+		out = append(out, StructResult{Name: name, Desc: fmt.Sprintf("%s.%s only decides branches in %s and is not read by anything it calls in its package", tn, field, fname), OK: okAll, Detail: why})
+	}
 	for _, rc := range spec.Reads {
 		st := structOfPkg(fn, rc.Type)
 		if st == nil {
@@ -322,4 +336,138 @@ func fieldsRead(fn *ssa.Function, tname string) map[string]bool {
 		}
 	}
 	return out
+}
+
+// controlOnly: in fn every load of field tname.field is used only by
+// comparisons (and boolean negations / phis of them) that only feed If
+// instructions; and no function of fn's package that is statically reachable
+// from fn loads the field at all.
+func controlOnly(fn *ssa.Function, tname, field string) (bool, string, int) {
+	isLoadOf := func(ins ssa.Instruction) (ssa.Value, bool) {
+		switch x := ins.(type) {
+		case *ssa.UnOp:
+			if x.Op != token.MUL {
+				return nil, false
+			}
+			fa, ok := x.X.(*ssa.FieldAddr)
+			if !ok {
+				return nil, false
+			}
+			st := fa.X.Type().Underlying().(*types.Pointer).Elem()
+			n, isN := st.(*types.Named)
+			if !isN || n.Obj().Name() != tname {
+				return nil, false
+			}
+			if st.Underlying().(*types.Struct).Field(fa.Field).Name() != field {
+				return nil, false
+			}
+			return x, true
+		case *ssa.Field:
+			n, isN := x.X.Type().(*types.Named)
+			if !isN || n.Obj().Name() != tname {
+				return nil, false
+			}
+			if n.Underlying().(*types.Struct).Field(x.Field).Name() != field {
+				return nil, false
+			}
+			return x, true
+		}
+		return nil, false
+	}
+	nLoads := 0
+	var controlUse func(v ssa.Value, seen map[ssa.Value]bool) (bool, string)
+	controlUse = func(v ssa.Value, seen map[ssa.Value]bool) (bool, string) {
+		if seen[v] {
+			return true, ""
+		}
+		seen[v] = true
+		refs := v.Referrers()
+		if refs == nil {
+			return true, ""
+		}
+		for _, r := range *refs {
+			switch u := r.(type) {
+			case *ssa.DebugRef:
+			case *ssa.If:
+			case *ssa.BinOp:
+				switch u.Op {
+				case token.EQL, token.NEQ, token.LSS, token.LEQ, token.GTR, token.GEQ:
+					if ok, why := controlUse(u, seen); !ok {
+						return false, why
+					}
+				default:
+					return false, fmt.Sprintf("used in arithmetic (%s)", u.Op)
+				}
+			case *ssa.UnOp:
+				if u.Op == token.NOT {
+					if ok, why := controlUse(u, seen); !ok {
+						return false, why
+					}
+				} else {
+					return false, "used by a unary operation"
+				}
+			case *ssa.Phi:
+				if _, isBool := u.Type().Underlying().(*types.Basic); isBool && u.Type().Underlying().(*types.Basic).Kind() == types.Bool {
+					if ok, why := controlUse(u, seen); !ok {
+						return false, why
+					}
+				} else {
+					return false, "flows into a non-boolean phi"
+				}
+			default:
+				return false, fmt.Sprintf("flows into %T", r)
+			}
+		}
+		return true, ""
+	}
+	for _, b := range fn.Blocks {
+		for _, ins := range b.Instrs {
+			if v, ok := isLoadOf(ins); ok {
+				nLoads++
+				if ok2, why := controlUse(v, map[ssa.Value]bool{}); !ok2 {
+					return false, why, nLoads
+				}
+			}
+		}
+	}
+	// reachable functions of the same package must not read the field at all
+	seen := map[*ssa.Function]bool{fn: true}
+	var work []*ssa.Function
+	push := func(f *ssa.Function) {
+		if f != nil && !seen[f] && f.Blocks != nil && f.Pkg != nil && fn.Pkg != nil && f.Pkg == fn.Pkg {
+			seen[f] = true
+			work = append(work, f)
+		}
+	}
+	scanCalls := func(f *ssa.Function) {
+		for _, b := range f.Blocks {
+			for _, ins := range b.Instrs {
+				if c, ok := ins.(ssa.CallInstruction); ok {
+					push(c.Common().StaticCallee())
+				}
+				if mc, ok := ins.(*ssa.MakeClosure); ok {
+					if cf, isF := mc.Fn.(*ssa.Function); isF {
+						if !seen[cf] && cf.Blocks != nil {
+							seen[cf] = true
+							work = append(work, cf)
+						}
+					}
+				}
+			}
+		}
+	}
+	scanCalls(fn)
+	for len(work) > 0 {
+		f := work[len(work)-1]
+		work = work[:len(work)-1]
+		for _, b := range f.Blocks {
+			for _, ins := range b.Instrs {
+				if _, ok := isLoadOf(ins); ok {
+					return false, "read in " + vc.FuncName(f) + ", which is reachable from here", nLoads
+				}
+			}
+		}
+		scanCalls(f)
+	}
+	return true, "", nLoads
 }
